@@ -105,6 +105,12 @@ def props(rep, d, tier, seed):
            MAXLEN=maxlen, EXPORT="ACTION_CONSTRAINT Export")
     r = core.tlc("MC_Props", "MC_Props.cfg", d, workers=1, env=dict(GEN_OUT=gen), heap="6g")
     rep.add_model("props-model", r)
+    # same actions from richer starting lists (built by fixed 4-step prefixes)
+    render(os.path.join(core.SPEC, "MC_PropsRich.cfg.in"), os.path.join(d, "MC_PropsRich.cfg"),
+           MAXLEN=maxlen - 1)
+    r2 = core.tlc("MC_Props", "MC_PropsRich.cfg", d, workers=1, env=dict(GEN_OUT=gen), heap="6g",
+                  tag="props-rich")
+    rep.add_model("props-model(rich starting lists)", r2)
     obs = os.path.join(d, "obs_props.ndjson")
     core.run([hb, "props", gen, obs], timeout=1800)
     v = core.validate("C20PropsTrace", "C20PropsTrace.cfg", d, obs, nparts=16)
